@@ -470,9 +470,10 @@ func (r *Runtime) typedArrayProto_copyWithin(call FunctionCall) Value {
 		data := ta.viewedArrayBuf.data
 		offset := ta.offset
 		elemSize := ta.elemSize
-		if final > from {
+		if count := min(final-from, int(l)-to); count > 0 {
 			ta.viewedArrayBuf.ensureNotDetached(true)
-			copy(data[(offset+to)*elemSize:], data[(offset+from)*elemSize:(offset+final)*elemSize])
+			// never write beyond the end of the view (the buffer may be larger)
+			copy(data[(offset+to)*elemSize:(offset+to+count)*elemSize], data[(offset+from)*elemSize:(offset+from+count)*elemSize])
 		}
 		return call.This
 	}
